@@ -405,6 +405,171 @@ theorem Fr.abortFlow : ∀ (fuel : Nat) (f : FUid) (sc : List Score) (d : Bool),
     have ih := Fr.abortFlow fuel
     pres_search (Fr G) (frPO G) (first | fr_leaf | exact Fr.dropHeads _ (by g_mem) | exact Fr.setFlowStatus _ _ (by g_mem) | exact Fr.restartActivated _ _ _ (by g_mem) | exact ih _ _ _ (by g_mem) | (refine Fr.bind_getInstX _ ?_ _ ?_; (g_mem); intro x hkids) | (refine Pres.forIn_mem (frPO G) _ _ _ ?_; intro c hc b))
 
+
+theorem Fr.setHeadPos (k : Key) (p : Nat) (hG : G k.1) : Pres (Fr G) (setHeadPos k p) := by
+  unfold CoreVM.setHeadPos
+  have h1 : ∀ nm, G (Op.setPos k.1 k.2 p nm).flow := fun _ => hG
+  pres_search (Fr G) (frPO G) (first | fr_leaf | exact Fr.applyOp _ (h1 _))
+
+theorem Fr.setHeadStatus (k : Key) (st : HeadStatus) (hG : G k.1) : Pres (Fr G) (setHeadStatus k st) := by
+  unfold CoreVM.setHeadStatus
+  have h1 : ∀ nm, G (Op.setStatus k.1 k.2 st nm).flow := fun _ => hG
+  pres_search (Fr G) (frPO G) (first | fr_leaf | exact Fr.applyOp _ (h1 _))
+
+theorem lookup_modify_other {α : Type} (k : Key) (u : α → α) (l : List (Key × α)) (g' : FUid) (h' : HUid) (hne : g' ≠ k.1) :
+    OMap.lookup (g', h') (OMap.modify k u l) = OMap.lookup (g', h') l := by
+  rw [OMap.lookup_modify]
+  have : ¬ ((g', h') = k) := by intro e; exact hne (by rw [← e])
+  simp [this]
+
+theorem Fr.modHeadX (k : Key) (u : HeadX → HeadX) (hG : G k.1) : Pres (Fr G) (modHeadX k u) := by
+  unfold CoreVM.modHeadX
+  exact Fr.modifyRest_hx k.1 hG _ (fun _ => rfl) (fun r g' h' hne => lookup_modify_other k u r.hx g' h' hne)
+
+/-- `flow_state.context.update(...)` of a member of `G` (which owns its context) -/
+theorem Fr.setCtxVar (f : FUid) (key : String) (v : Val) (hG : G f) : Pres (Fr G) (setCtxVar f key v) := by
+  refine ⟨fun s hc => ?_⟩
+  unfold CoreVM.setCtxVar CoreVM.ctxHolder
+  cases hl : OMap.lookup f s.r.fx with
+  | none =>
+    have : getInstX f s = .error (.py "KeyError" f) s := by
+      simp [getInstX, getInstX?, getRest, bind, EStateM.bind, get, getThe, MonadStateOf.get, EStateM.get, pure, EStateM.pure, hl,
+        pyRaise, throw, throwThe, MonadExceptOf.throw, EStateM.throw]
+    simp only [bind_assoc]
+    rw [bind_err_eq this]
+    exact (frPO G).refl s hc
+  | some x =>
+    have h1 : getInstX f s = .ok x s := by
+      simp [getInstX, getInstX?, getRest, bind, EStateM.bind, get, getThe, MonadStateOf.get, EStateM.get, pure, EStateM.pure, hl]
+    have ho : x.ctxOwner = none := (hc f x hG hl).2
+    simp only [bind_assoc]
+    rw [bind_ok_eq h1]
+    simp only [ho, pure_bind]
+    exact (Fr.modInstX_in f (fun x => { x with context := OMap.insert key v x.context }) hG (fun x => ⟨fun c h => h, rfl⟩)).app s hc
+
+
+theorem Same.flowHierarchy : ∀ (fuel : Nat) (f : FUid), Pres Same (flowHierarchy fuel f)
+  | 0, f => by unfold CoreVM.flowHierarchy; exact Pres.throw samePO _
+  | fuel + 1, f => by
+    unfold CoreVM.flowHierarchy
+    have ih := Same.flowHierarchy fuel
+    pres_search Same samePO (first | same_leaf | exact ih _)
+
+theorem Neutral.logActionOrIntents (fuel : Nat) (f : FUid) (sc : List Score) : Pres Neutral (logActionOrIntents fuel f sc) := by
+  unfold CoreVM.logActionOrIntents
+  pres_search Neutral neutralPO (first | neutral_leaf | exact Neutral.of_same (Same.flowHierarchy _ _))
+
+theorem lookup_append_other {α : Type} (f : FUid) (h : HUid) (v : α) (l : List (Key × α)) (g' : FUid) (h' : HUid) (hne : g' ≠ f) :
+    OMap.lookup (g', h') (l ++ [((f, h), v)]) = OMap.lookup (g', h') l := by
+  rw [OMap.lookup_append_single]
+  have : ¬ ((g', h') = (f, h)) := by intro e; cases e; exact hne rfl
+  cases OMap.lookup (g', h') l <;> simp [this]
+
+theorem Fr.finishFlow (fuel : Nat) (f : FUid) (sc : List Score) (d : Bool) (hG : G f) : Pres (Fr G) (finishFlow fuel f sc d) := by
+  unfold CoreVM.finishFlow
+  have happ := fun (h : HUid) (v : HeadX) => Fr.modifyRest_hx (G := G) f hG (fun r => { r with hx := r.hx ++ [((f, h), v)] }) (fun _ => rfl) (fun r g' h' hne => lookup_append_other f h v r.hx g' h' hne)
+  have hop : ∀ h nm, G (Op.mainRestart f h nm).flow := fun _ _ => hG
+  pres_search (Fr G) (frPO G) (first | fr_leaf | exact Fr.dropHeads _ (by g_mem) | exact Fr.setFlowStatus _ _ (by g_mem) | exact Fr.restartActivated _ _ _ (by g_mem) | exact Fr.abortFlow _ _ _ _ (by g_mem) | exact Fr.of_neutral (Neutral.logActionOrIntents _ _ _) | exact Fr.applyOp _ (hop _ _) | exact happ _ _ | (refine Fr.bind_getInstX _ ?_ _ ?_; (g_mem); intro x hkids) | (refine Pres.forIn_mem (frPO G) _ _ _ ?_; intro c hc b))
+
+
+/-! #### `slide` -/
+
+theorem Same.childHeadUids : ∀ (fuel : Nat) (f : FUid) (h : HUid), Pres Same (childHeadUids fuel f h)
+  | 0, f, h => by unfold CoreVM.childHeadUids; exact Pres.throw samePO _
+  | fuel + 1, f, h => by
+    unfold CoreVM.childHeadUids
+    have ih := Same.childHeadUids fuel
+    pres_search Same samePO (first | same_leaf | exact ih _ _)
+
+theorem Neutral.pickChoice (n : Nat) : Pres Neutral (pickChoice n) := by
+  unfold CoreVM.pickChoice; neutral_auto
+
+theorem flatMap_modify_snd (sc : String) (g : List String → List String) (l : List (String × (List String × List String))) :
+    (OMap.modify sc (fun p => (p.1, g p.2)) l).flatMap (fun e => e.2.1) = l.flatMap (fun e => e.2.1) := by
+  induction l with
+  | nil => rfl
+  | cons e rest ih =>
+    unfold OMap.modify
+    split <;> simp [List.flatMap_cons, ih]
+
+theorem mem_flatMap_erase (n : String) (c : String) (l : List (String × (List String × List String)))
+    (h : c ∈ (OMap.erase n l).flatMap (fun e => e.2.1)) : c ∈ l.flatMap (fun e => e.2.1) := by
+  induction l with
+  | nil => exact h
+  | cons e rest ih =>
+    unfold OMap.erase at h
+    split at h
+    · simp only [List.flatMap_cons, List.mem_append]; exact Or.inr (ih h)
+    · simp only [List.flatMap_cons, List.mem_append] at h ⊢
+      rcases h with h | h
+      · exact Or.inl h
+      · exact Or.inr (ih h)
+
+theorem mem_scope_of_lookup {n : String} {l : List (String × (List String × List String))} {p : List String × List String}
+    (h : OMap.lookup n l = some p) {c : String} (hc : c ∈ p.1) : c ∈ l.flatMap (fun e => e.2.1) := by
+  induction l with
+  | nil => cases h
+  | cons e rest ih =>
+    unfold OMap.lookup at h
+    simp only [List.flatMap_cons, List.mem_append]
+    split at h
+    · cases h; exact Or.inl hc
+    · exact Or.inr (ih h)
+
+theorem kids_scope {x : InstX} {n : String} {p : List String × List String} {c : FUid}
+    (h : ∀ c ∈ kids x, G c) (hl : OMap.lookup n x.scopes = some p) (hc : c ∈ p.1) : G c :=
+  h c (List.mem_append_right _ (mem_scope_of_lookup hl hc))
+
+macro_rules | `(tactic| kids_tac) => `(tactic| (intro x; refine ⟨fun c hc => ?_, rfl⟩; simp only [kids, scopeFlows, List.mem_append, flatMap_modify_snd, List.flatMap_append, List.flatMap_cons, List.flatMap_nil, List.append_nil, List.not_mem_nil, or_false] at hc ⊢; first | exact hc | exact hc.imp id (mem_flatMap_erase _ _ _)))
+
+theorem lookup_erase_other {α : Type} (k : Key) (l : List (Key × α)) (g' : FUid) (h' : HUid) (hne : g' ≠ k.1) :
+    OMap.lookup (g', h') (OMap.erase k l) = OMap.lookup (g', h') l := by
+  rw [OMap.lookup_erase]
+  have : ¬ ((g', h') = k) := by intro e; exact hne (by rw [← e])
+  simp [this]
+
+theorem flatMap_modify_append (sc : String) (u : String) (l : List (String × (List String × List String))) :
+    (OMap.modify sc (fun p => (p.1, p.2 ++ [u])) l).flatMap (fun e => e.2.1) = l.flatMap (fun e => e.2.1) :=
+  flatMap_modify_snd sc (· ++ [u]) l
+
+macro_rules | `(tactic| kids_tac) => `(tactic| (intro x; refine ⟨fun c hc => ?_, rfl⟩; simp only [kids, scopeFlows, flatMap_modify_append] at hc ⊢; exact hc))
+macro_rules | `(tactic| g_mem) => `(tactic| exact kids_scope (by assumption) (by assumption) (by assumption))
+
+set_option maxHeartbeats 1000000 in
+theorem Fr.slideStep (fuel : Nat) (f : FUid) (h : HUid) (hG : G f) : Pres (Fr G) (slideStep fuel f h) := by
+  unfold CoreVM.slideStep
+  have happ := fun (nk : Key) (hnk : nk.1 = f) (v : HeadX) => Fr.modifyRest_hx (G := G) f hG (fun r => { r with hx := r.hx ++ [(nk, v)] }) (fun _ => rfl) (fun r g' h' hne => by obtain ⟨a, b⟩ := nk; simp only at hnk; subst hnk; exact lookup_append_other a b v r.hx g' h' hne)
+  have hers := fun (u : HUid) => Fr.modifyRest_hx (G := G) f hG (fun r => { r with hx := OMap.erase (f, u) r.hx }) (fun _ => rfl) (fun r g' h' hne => lookup_erase_other (f, u) r.hx g' h' hne)
+  have hgctx := fun (g : List (String × Val) → List (String × Val)) => Fr.modifyRest_other (G := G) (fun r => { r with gctx := g r.gctx }) (fun _ => rfl) (fun _ => rfl)
+  have hfork : ∀ nu a p b, G (Op.fork f nu a p b).flow := fun _ _ _ _ => hG
+  have hdel : ∀ u, G (Op.delHead f u).flow := fun _ => hG
+  pres_search (Fr G) (frPO G) (first | fr_leaf | exact Fr.setHeadPos _ _ (by g_mem) | exact Fr.setHeadStatus _ _ (by g_mem) | exact Fr.modHeadX _ _ (by g_mem) | exact Fr.setCtxVar _ _ _ (by g_mem) | exact Fr.setFlowStatus _ _ (by g_mem) | exact Fr.abortFlow _ _ _ _ (by g_mem) | exact Fr.of_neutral (Neutral.pickChoice _) | exact Fr.of_same (Same.childHeadUids _ _ _) | exact Fr.applyOp _ (hfork _ _ _ _) | exact Fr.applyOp _ (hdel _) | exact happ _ rfl _ | exact hers _ | exact hgctx _ | (refine Fr.bind_getInstX _ ?_ _ ?_; (g_mem); intro x hkids) | (refine Pres.forIn_mem (frPO G) _ _ _ ?_; intro c hc b))
+
+theorem Fr.slideLoop : ∀ (fuel : Nat) (f : FUid) (h : HUid) (acc : List Key), G f → Pres (Fr G) (slideLoop fuel f h acc)
+  | 0, f, h, acc, _ => by unfold CoreVM.slideLoop; exact Pres.throw (frPO G) _
+  | fuel + 1, f, h, acc, hG => by
+    unfold CoreVM.slideLoop
+    have ih := Fr.slideLoop fuel
+    pres_search (Fr G) (frPO G) (first | exact Fr.slideStep _ _ _ (by g_mem) | exact ih _ _ _ (by g_mem))
+
+theorem Fr.slide (fuel : Nat) (f : FUid) (h : HUid) (hG : G f) : Pres (Fr G) (slide fuel f h) := Fr.slideLoop fuel f h [] hG
+
+/-- the keys `slide` hands back (forked heads, the merged parent head) belong to the flow that was slid -/
+def SlideKeysOwn : Prop :=
+  ∀ (fuel : Nat) (f : FUid) (h : HUid) (s s' : VM) (r : List Key), slide fuel f h s = .ok r s' → ∀ k ∈ r, k.1 = f
+
+theorem Pres.bind_ret {R : VM → VM → Prop} (po : PreOrd R) {α β : Type} {x : M α} {f : α → M β} (P : α → Prop)
+    (hx : Pres R x) (hP : ∀ s a s', x s = .ok a s' → P a) (hf : ∀ a, P a → Pres R (f a)) : Pres R (x >>= f) := by
+  refine ⟨fun s => ?_⟩
+  cases hxs : x s with
+  | ok a s1 =>
+    rw [bind_ok_eq hxs]
+    exact po.trans (ok_of_pres hx hxs) ((hf a (hP s a s1 hxs)).app s1)
+  | error e s1 =>
+    rw [bind_err_eq hxs]
+    exact err_of_pres hx hxs
+
+
 end fr
 
 end NemoVerif.CoreVM
